@@ -165,11 +165,14 @@ def replay(hist, vpc, universe, variant, pooling):
             k = key_for(step[1])
             if k:
                 w.nodes[step[1]].down = True
-                w.begin("all")
+                # an already open connection to the node is reset, a new one is refused
+                w.calls += 1
+                w.net.begin_call(w.calls, {("sendall", 1): "reset"}, "all")
                 try:
                     c.get(k)
                 except Exception:   # noqa -- the failing server's own error
-                    pass
+                    n = node(step[1])
+                    evs.append({"e": "fault", "node": {"host": n["ip"] if vpc else n["fqdn"], "port": n["port"]}})
                 w.nodes[step[1]].down = False
         elif step[0] == "revive":
             vclock.advance(11)
@@ -196,6 +199,7 @@ CONSTANTS
   Fixed = TRUE
 VIEW view
 INVARIANT MonitorOK
+INVARIANT EmptyRotationOnlyByFaults
 CHECK_DEADLOCK FALSE
 """
         r = tlc.run("AwsDiscovery", cfg_text=cfg, workers=16, timeout=3000)
